@@ -19,6 +19,7 @@ var c19Specs = []famSpec{
 	{Family: "rand-mid", Pool: 60000, PoolQ: 3000},
 	{Family: "big-n-mid", Pool: 3000, PoolQ: 60},
 	{Family: "rand-wide", FreshQ: 4000, FreshT: 200000},
+	{Family: "nested-small", Pool: 30000, PoolQ: 1500},
 	{Family: "nested", FreshQ: 1500, FreshT: 50000},
 	{Family: "rectilinear", FreshQ: 1500, FreshT: 50000},
 	{Family: "big-n", FreshQ: 300, FreshT: 8000},
@@ -101,14 +102,39 @@ func c19Run(ctx *run.Ctx, id run.CaseID) {
 		aU, aI, aD, aD2, aX, aS, aC := ar(U), ar(I), ar(D), ar(D2), ar(X), ar(S1), ar(C1)
 		bound := 2*L + 1
 		ctx.Count("area_identities", 3)
+		// attribution: total area of the loops the self-intersection repair discarded in the seven executions
+		var tris []discardTri
+		gotTris := false
+		discarded := func() float64 {
+			if !gotTris {
+				gotTris = true
+				for _, ct := range clipTypes {
+					tris = append(tris, discardEvents(subj, clp, ct, fr)...)
+				}
+				tris = append(tris, discardEvents(clp, subj, clip.Difference, fr)...)
+				tris = append(tris, discardEvents(subj, nil, clip.Union, fr)...)
+				tris = append(tris, discardEvents(clp, nil, clip.Union, fr)...)
+			}
+			a := 0.0
+			for _, t := range tris {
+				a += t.area
+			}
+			return a
+		}
+		areaClass := func(d float64) string {
+			if discarded() > 0 && d <= bound+discarded()*1.0001 {
+				return "repair-discarded-loop"
+			}
+			return ""
+		}
 		if d := math.Abs(aU + aI - aS - aC); d > bound {
-			ctx.Fail(digest, "area/U+I=S+C/"+sub, "", fmt.Sprintf("|area(U)+area(I)-area(S)-area(C)| = %.1f > 2*L = %.1f (U=%.1f I=%.1f S=%.1f C=%.1f)", d, bound, aU, aI, aS, aC), in)
+			ctx.Fail(digest, "area/U+I=S+C/"+sub, areaClass(d), fmt.Sprintf("|area(U)+area(I)-area(S)-area(C)| = %.1f > 2*L = %.1f (U=%.1f I=%.1f S=%.1f C=%.1f)", d, bound, aU, aI, aS, aC), in)
 		}
 		if d := math.Abs(aX - (aU - aI)); d > bound {
-			ctx.Fail(digest, "area/X=U-I/"+sub, "", fmt.Sprintf("|area(X)-(area(U)-area(I))| = %.1f > %.1f (X=%.1f U=%.1f I=%.1f)", d, bound, aX, aU, aI), in)
+			ctx.Fail(digest, "area/X=U-I/"+sub, areaClass(d), fmt.Sprintf("|area(X)-(area(U)-area(I))| = %.1f > %.1f (X=%.1f U=%.1f I=%.1f)", d, bound, aX, aU, aI), in)
 		}
 		if d := math.Abs(aD + aI + aD2 - aU); d > bound {
-			ctx.Fail(digest, "area/D+I+D'=U/"+sub, "", fmt.Sprintf("|area(D)+area(I)+area(D')-area(U)| = %.1f > %.1f (D=%.1f I=%.1f D'=%.1f U=%.1f)", d, bound, aD, aI, aD2, aU), in)
+			ctx.Fail(digest, "area/D+I+D'=U/"+sub, areaClass(d), fmt.Sprintf("|area(D)+area(I)+area(D')-area(U)| = %.1f > %.1f (D=%.1f I=%.1f D'=%.1f U=%.1f)", d, bound, aD, aI, aD2, aU), in)
 		}
 		for _, p := range elig {
 			in1 := func(s Paths) bool { w, on := oracle.Winding(s, p); return w != 0 || on }
@@ -126,7 +152,14 @@ func c19Run(ctx *run.Ctx, id run.CaseID) {
 				bad = "D+I+D'=U"
 			}
 			if bad != "" {
-				ctx.Fail(digest, "pointwise/"+bad+"/"+sub, "", fmt.Sprintf("identity %s fails at %s: U=%v I=%v D=%v D'=%v X=%v S*=%v", bad, fmtPt(p), u, i, d, d2, x, s1), in)
+				class := ""
+				discarded()
+				for _, t := range tris {
+					if t.containsInflated(p, 2.5) {
+						class = "repair-discarded-loop"
+					}
+				}
+				ctx.Fail(digest, "pointwise/"+bad+"/"+sub, class, fmt.Sprintf("identity %s fails at %s: U=%v I=%v D=%v D'=%v X=%v S*=%v", bad, fmtPt(p), u, i, d, d2, x, s1), in)
 				break
 			}
 		}
